@@ -719,11 +719,138 @@ def gen_tables(repo):
     return "\n".join(out)
 
 
+# ---------------------------------------------------------------------------
+# effect skeletons (tie T for the ORDER of file effects: C17 / C09 / C03)
+# ---------------------------------------------------------------------------
+# A function body is reduced to its control skeleton over a fixed vocabulary of
+# effect-relevant calls; everything else is dropped.  Fail-closed on statement
+# kinds the reduction does not know.
+
+EFFECT_VOCAB = ('tofile', 'truncate', '_update_len', '_update_arrayinfo', '_update_readmetxt',
+                '_update_arraydescr', '_write_jsondict', '_write_txt', '_append', 'truncate_array',
+                'append', 'iterappend', 'write', 'unlink', 'rename', 'replace', 'remove')
+
+
+def _call_name(c):
+    f = c.func
+    if isinstance(f, ast.Attribute):
+        return f.attr
+    if isinstance(f, ast.Name):
+        return f.id
+    return None
+
+
+def _calls_in(node):
+    """effect calls inside an expression / simple statement, in evaluation order"""
+    out = []
+
+    def visit(n):
+        if isinstance(n, (ast.Lambda, ast.FunctionDef, ast.ClassDef)):
+            return
+        for ch in ast.iter_child_nodes(n):
+            visit(ch)
+        if isinstance(n, ast.Call) and _call_name(n) in EFFECT_VOCAB:
+            out.append(_call_name(n))
+    if node is not None:
+        visit(node)
+    return out
+
+
+def _seq(items):
+    items = [i for i in items if i != 'Skip']
+    if not items:
+        return 'Skip'
+    r = items[-1]
+    for i in reversed(items[:-1]):
+        r = f'(Seq {i} {r})'
+    return r
+
+
+def _sk_stmts(ss):
+    return _seq([_sk_stmt(s) for s in ss])
+
+
+def _sk_stmt(s):
+    calls = lambda n: [f'(Call "{c}")' for c in _calls_in(n)]
+    if isinstance(s, (ast.Expr, ast.Assign, ast.AugAssign, ast.AnnAssign, ast.Delete, ast.Assert)):
+        return _seq(calls(s))
+    if isinstance(s, ast.Pass):
+        return 'Skip'
+    if isinstance(s, ast.Return):
+        return _seq(calls(s.value) + ['Return'])
+    if isinstance(s, ast.Raise):
+        return _seq(calls(s.exc) + ['Raise'])
+    if isinstance(s, ast.If):
+        return _seq(calls(s.test) + [f'(If {_sk_stmts(s.body)} {_sk_stmts(s.orelse)})'])
+    if isinstance(s, ast.For):
+        if s.orelse:
+            fail(s, 'for-else in an effect skeleton')
+        return _seq(calls(s.iter) + [f'(For {_sk_stmts(s.body)})'])
+    if isinstance(s, ast.While):
+        if s.orelse:
+            fail(s, 'while-else in an effect skeleton')
+        return f'(For {_seq(calls(s.test) + [_sk_stmts(s.body)])})'
+    if isinstance(s, ast.With):
+        pre = []
+        for it in s.items:
+            pre += calls(it.context_expr)
+        return _seq(pre + [_sk_stmts(s.body)])
+    if isinstance(s, ast.Try):
+        if s.orelse:
+            fail(s, 'try-else in an effect skeleton')
+        body = _sk_stmts(s.body)
+        if s.handlers:
+            if len(s.handlers) != 1:
+                fail(s, 'more than one except clause in an effect skeleton')
+            body = f'(Try {body} {_sk_stmts(s.handlers[0].body)})'
+        if s.finalbody:
+            body = f'(Finally {body} {_sk_stmts(s.finalbody)})'
+        return body
+    if isinstance(s, (ast.Import, ast.ImportFrom, ast.Global, ast.Nonlocal)):
+        return 'Skip'
+    fail(s, f'statement {type(s).__name__} in an effect skeleton')
+
+
+EFFECT_FUNS = (('darr/array.py', 'Array', '_update_arrayinfo', 'sk_update_arrayinfo'),
+               ('darr/array.py', 'Array', '_update_len', 'sk_update_len'),
+               ('darr/array.py', 'Array', '_append', 'sk_append'),
+               ('darr/array.py', 'Array', 'iterappend', 'sk_iterappend'),
+               ('darr/array.py', 'Array', 'append', 'sk_append_method'),
+               ('darr/array.py', None, 'truncate_array', 'sk_truncate_array'),
+               ('darr/raggedarray.py', None, 'truncate_raggedarray', 'sk_truncate_raggedarray'))
+
+EFFECTS_HEADER = """(* GENERATED by /verif/gen/py2v.py from darr/array.py, darr/raggedarray.py -- do not edit.
+   Control skeletons of the functions that change files, over the vocabulary
+   %s;
+   every other statement and call is dropped. *)
+From Coq Require Import List String.
+From Darr Require Import Skel.
+Import ListNotations.
+Open Scope string_scope.
+
+"""
+
+
+def gen_effects(repo):
+    out = EFFECTS_HEADER % ' '.join(EFFECT_VOCAB)
+    trees = {}
+    for path, cls, fn, name in EFFECT_FUNS:
+        if path not in trees:
+            trees[path] = ast.parse((repo / path).read_text(encoding='utf-8'))
+        f = find_function(trees[path], fn, cls)
+        body = f.body
+        if body and isinstance(body[0], ast.Expr) and isinstance(getattr(body[0], 'value', None), ast.Constant) \
+                and isinstance(body[0].value.value, str):
+            body = body[1:]
+        out += f"Definition {name} : sk :=\n  {_sk_stmts(body)}.\n\n"
+    return out
+
+
 def main():
     repo = Path(sys.argv[1] if len(sys.argv) > 1 else '/repo')
     outdir = Path(sys.argv[2] if len(sys.argv) > 2 else '/verif/coq')
     status = 0
-    for fname, gen in (('Gen_frames.v', gen_frames), ('Gen_tables.v', gen_tables)):
+    for fname, gen in (('Gen_frames.v', gen_frames), ('Gen_tables.v', gen_tables), ('Gen_effects.v', gen_effects)):
         try:
             text = gen(repo)
         except (Unsupported, SyntaxError, OSError, KeyError, ValueError) as e:
